@@ -22,6 +22,34 @@ def canon(k):
     return c
 
 
+MORPHEMES = ["get", "set", "dag", "op", "arg", "name", "list", "str", "concat", "splat", "remove", "flatten", "to", "lower", "upper", "sub", "substr",
+             "find", "fold", "foldl", "foldr", "l", "r", "for", "each", "foreach", "filter", "is", "a", "isa", "cast", "exists", "empty", "size", "head",
+             "tail", "if", "cond", "eq", "ne", "lt", "le", "gt", "ge", "add", "mul", "div", "and", "or", "xor", "not", "shl", "sra", "srl", "log",
+             "two", "2", "range", "interleave", "initialized", "repr", "con", "match", "instances", "sort", "len", "length", "concat", "st", "subst",
+             "first", "last", "min", "max", "abs", "mod", "neg", "zip", "map", "nth", "at", "in", "contains", "starts", "ends", "with", "join", "split"]
+
+
+def bang_candidates(ref):
+    """candidate operator spellings: one to three morphemes, every reference name with one character dropped / doubled, known deprecated names"""
+    out = set(["getop", "setop", "logtwo", "log2", "strconcat", "listconcat"])
+    ms = sorted(set(MORPHEMES))
+    for a in ms:
+        out.add(a)
+        for b in ms:
+            out.add(a + b)
+    core = ["get", "set", "dag", "op", "arg", "name", "list", "str", "concat", "to", "sub", "is", "log", "two", "2", "con", "fold", "l", "r", "for", "each"]
+    for a in core:
+        for b in core:
+            for c in core:
+                out.add(a + b + c)
+    for w in ref:
+        for i in range(len(w)):
+            out.add(w[:i] + w[i + 1:])
+            out.add(w[:i] + w[i] + w[i:])
+        out.add(w + "s")
+    return sorted(out)
+
+
 def class_cases(seed, n):
     rng = random.Random("%d/c20" % seed)
     names = ["Inst", "Reg", "Base", "Pat", "Op", "X86", "A", "Zed"]
@@ -35,7 +63,11 @@ def class_cases(seed, n):
             tgt = lib if rng.random() < 0.3 else main
             if rng.random() < 0.4:
                 (lib if rng.random() < 0.3 else main).append("class %s;" % c)           # forward declaration first
-            ps = ", ".join("%s p%d" % (rng.choice(["int", "string", "bit", "list<int>"]), i) for i in range(params[c]))
+            # trailing parameters may have defaults: a literal, ?, or a value the indexer cannot type (a record made by a
+            # foreach paste, R0 below): a parameter is a parameter whatever its default
+            first_default = rng.randrange(params[c] + 1)
+            dflt = lambda i: (" = " + rng.choice(["1", "?", "R0", "R3"])) if i >= first_default else ""
+            ps = ", ".join("%s p%d%s" % (rng.choice(["int", "string", "bit", "list<int>"]), i, dflt(i)) for i in range(params[c]))
             body = rng.choice([";", " { int f = 1; }", " { }"])
             tgt.append("class %s%s%s" % (c, "<%s>" % ps if ps else "", body))
         rng.shuffle(main)
@@ -71,7 +103,7 @@ def class_cases(seed, n):
         if not partial:
             partial = "Z"
         stmt = pos_kind % partial
-        text = ('include "lib.td"\n' if lib else "") + "\n".join(main) + "\n" + stmt
+        text = ('include "lib.td"\n' if lib else "") + "foreach i = 0...3 in def R#i;\n" + "\n".join(main) + "\n" + stmt
         off = len(text.encode())
         if stmt.startswith("multiclass"):
             text += rng.choice([" { def x; }", " { def x; }\nclass After;"])
@@ -101,14 +133,15 @@ def check_c20(tier, seed):
     item = {"id": 0, "kind": "vocab",
             "bang_contexts": [[c, c.index("!") + 1] for c in BANG_CONTEXTS],
             "keyword_ctx": ["cl", 2], "type_ctx": ["class A<i", 9], "value_ctx": ["defvar x = t", 12],
-            "words": ref_kw, "bang_words": ref_bang, "statements": STATEMENTS,
+            "words": ref_kw, "bang_words": ref_bang, "bang_candidates": bang_candidates(ref_bang), "statements": STATEMENTS,
             "class_cases": [{k: c[k] for k in ("files", "root", "path", "offset")} for c in cases]}
     recs, _ = common.run_harness([item], wd, "vocab", timeout_ms=120000)
     rec = recs[0]
     if rec.get("outcome") != "Ok":
         v.report("C20 outcome=%s " % rec.get("outcome"), {"rec": rec}, {"item": item})
         return v.finish("model_checking", {"states": 1, "transitions": 1, "traces_validated_against_impl": 1, "samples": [rec]}, [])
-    obs = {"id": 0, "bangCtx": rec["bangCtx"], "offered": rec["offered"], "lex": {w: canon(k) for w, k in rec["lex"].items()},
+    lexer_ops = sorted(w[1:] for w, k in rec["lex"].items() if w.startswith("!") and canon(k).startswith("bang:"))
+    obs = {"id": 0, "bangCtx": rec["bangCtx"], "offered": rec["offered"], "lex": {w: canon(k) for w, k in rec["lex"].items()}, "lexerOps": lexer_ops,
            "parses": rec["parses"], "classCases": []}
     for c, got in zip(cases, rec["classCases"]):
         obs["classCases"].append({"prog": c["prog"], "pos": c["pos"], "labels": sorted(x[0] for x in got["offered"]), "classes": c["classes"],
@@ -135,6 +168,7 @@ def check_c20(tier, seed):
     cov = {"states": r.distinct, "transitions": r.generated, "traces_validated_against_impl": 1, "exhaustive": True,
            "samples": [{"bang_context": obs["bangCtx"][0]["ctx"], "offered": obs["bangCtx"][0]["offered"][:8]}, obs["classCases"][0]],
            "bang_contexts": len(BANG_CONTEXTS), "operators_in_reference_table": len(ref_bang), "operators_offered": len(obs["bangCtx"][0]["offered"]),
+           "candidate_spellings_probed": len(item["bang_candidates"]), "operators_the_lexer_accepts": len(lexer_ops),
            "keywords_offered": len(obs["offered"]["keywords"]), "types_offered": len(obs["offered"]["types"]),
            "class_completion_cases": len(cases), "closure_findings": len(findings),
            "explanation": "the finite vocabularies are extracted from the running code (completion responses in every context, lexer verdict per "
